@@ -508,6 +508,55 @@ def check_iterate(res, desc, config, inp=None):
                       cause)
 
 
+def _renamed(inp, name):
+    """The same histogram value described by another variable (the histogram along another coordinate)."""
+    hist, ctx = M.split_value(copy.deepcopy(inp))
+    if not isinstance(ctx, dict) or not isinstance(ctx.get("variable"), dict):
+        return None
+    ctx["variable"]["name"] = name
+    if "combine" in ctx["variable"]:
+        ctx["variable"]["combine"] = tuple(dict(c, name=c["name"] + "_" + name)
+                                           for c in ctx["variable"]["combine"])
+    return (hist, ctx)
+
+
+def check_iterate_flow(res, desc, config):
+    """One IterateBins element over a flow of two histograms with the same edges, described by
+    different variables: every cell gets the context a new element gives it for its own histogram alone
+    (differential)."""
+    case = {"law": "iterate-flow", "input": desc, "config": config}
+    first = build_input(desc)
+    if first is None or not isinstance(M.split_value(first)[0], lena.structures.histogram):
+        return
+    second = _renamed(first, "other")
+    if second is None:
+        return
+    contents = _input_facts(copy.deepcopy(first))[3]
+    datas = [M.split_value(c)[0] for c in contents]
+    if config == "default" and not all(isinstance(x, lena.structures.histogram) for x in datas):
+        return
+
+    def make():
+        return lena.structures.IterateBins() if config == "default" else \
+            lena.structures.IterateBins(select_bins=always)
+    try:
+        want = [freeze(o) for inp in (first, second) for o in make().run(iter([copy.deepcopy(inp)]))]
+        got = [freeze(o) for o in make().run(iter([copy.deepcopy(first), copy.deepcopy(second)]))]
+        problem = None if got == want else "cells-depend-on-earlier-histograms"
+        detail = None
+        if problem:
+            k = [i for i in range(min(len(got), len(want))) if got[i] != want[i]]
+            detail = {"first_differing_output": k[0] if k else "length", "outputs": len(got)}
+    except Exception as e:  # noqa
+        problem, detail = "raised", type(e).__name__
+    res.count("iterate_flow_cases")
+    res.case(nontrivial=True, outcome=("iterate-flow", config, problem))
+    if problem:
+        res.violation(case, detail, "the outputs of a new IterateBins per histogram, concatenated",
+                      {"law": "iterate-bins", "kind": problem, "config": config,
+                       "dim": len(M.axes_of(M.split_value(first)[0].edges))})
+
+
 def check_map(res, desc, seqname, drop, inp=None):
     """MapBins(seq) over a flow of two equal copies of one histogram value."""
     case = {"law": "map", "input": desc, "seq": seqname, "drop": drop}
@@ -602,6 +651,8 @@ def run_shard(p, tier):
                 desc = {"from": "hand", "shape": p["shape"], "cells": cells, "hctx": hctx}
                 for config in ITER_CONFIGS:
                     check_iterate(res, desc, config)
+                    if config != "custom_str":
+                        check_iterate_flow(res, desc, config)
                 for seqname in M.MAP_SEQS:
                     for drop in (True, False):
                         check_map(res, desc, seqname, drop)
@@ -631,6 +682,8 @@ def replay(case):
         check_sib(res, case)
     elif law == "iterate":
         check_iterate(res, case["input"], case["config"])
+    elif law == "iterate-flow":
+        check_iterate_flow(res, case["input"], case["config"])
     elif law == "map":
         check_map(res, case["input"], case["seq"], case["drop"])
     return result_violations(res)
